@@ -34,6 +34,7 @@ class Arr:
         self._prov = frozenset(prov)
         self.label = label or fresh_name("arr")
         self.writes = 0          # number of writes into a root (to detect stale reasoning)
+        self.np_dtype = None     # exact NumPy dtype name when it matters (complex64 vs complex128 ...)
 
     # -- structure
     @property
